@@ -43,9 +43,11 @@ static int
 varint_decode(ByteBuffer *b, const size_t maxoctets, union varint64 *n)
 {
     const unsigned char *buf = b->data + b->offset;
+    const size_t room = b->size - b->offset;
+    const size_t limit = (room < maxoctets) ? room : maxoctets;
     n->u = 0u;
 
-    for (size_t i = 0u; i < maxoctets; ++i) {
+    for (size_t i = 0u; i < limit; ++i) {
         const unsigned char datum = buf[i];
         n->u |= (uint64_t)(datum & VARINT_DATA_MASK) << (i * VARINT_DATA_BITS);
         if (varint_done(datum)) {
@@ -55,7 +57,9 @@ varint_decode(ByteBuffer *b, const size_t maxoctets, union varint64 *n)
         }
     }
 
-    return -EILSEQ;
+    /* Running into the end of the buffer's memory is not the same as an
+     * over-long sequence: There just is not enough data. */
+    return (limit < maxoctets) ? -ENODATA : -EILSEQ;
 }
 
 static int
